@@ -31,7 +31,8 @@ JoinWith(seqs, sep) == IF seqs = <<>> THEN <<>>
 (* POSIX escaper (util_unix.go): every ' becomes '\'' and the result is wrapped in single quotes.                 *)
 EscPosix(s) == Cat([i \in 1..Len(s) |-> IF s[i] = "SQ" THEN <<"SQ", "BSL", "SQ", "SQ">> ELSE <<s[i]>>])
 Quote(s) == <<"SQ">> \o EscPosix(s) \o <<"SQ">>
-(* fish escaper (util_unix.go, chosen when the last path element of the shell is "fish"): inside single quotes    *)
+(* fish escaper (util_unix.go, chosen when the last path element of the program that runs the command is "fish",    *)
+(* see 1b): inside single quotes                                                                                   *)
 (* fish knows exactly two escapes, \' and \\ (fishshell.com/docs/current/language.html#quotes).                   *)
 EscFish(s) == Cat([i \in 1..Len(s) |-> IF s[i] = "SQ" THEN <<"BSL", "SQ">>
                                        ELSE IF s[i] = "BSL" THEN <<"BSL", "BSL">> ELSE <<s[i]>>])
@@ -43,6 +44,38 @@ EscapeSingleQuote(s) == <<"SQ">> \o Cat([i \in 1..Len(s) |-> IF s[i] = "SQ" THEN
 (* variable is written as  export NAME=<re-quoted value>  (NAME is an identifier: one ordinary word part).         *)
 TmuxArgStr(args) == JoinWith([i \in 1..Len(args) |-> EscapeSingleQuote(args[i])], <<"SP">>)
 TmuxExportWord(value) == <<"a">> \o EscapeSingleQuote(value)        \* NAME= abstracted to one ordinary character
+
+-------------------------------------------------------------------------------
+(* 1b. The executor: which program runs a command, and therefore which of the two quoting styles is used.         *)
+(* man fzf, --with-shell=STR: "Shell command and flags to start child processes with. On *nix Systems, the default *)
+(* value is $SHELL -c if $SHELL is set, otherwise sh -c."  Two inputs decide: the environment's $SHELL and the     *)
+(* --with-shell value.  A PATH is the sequence of its elements (what splitting at "/" gives: "/bin/sh" is          *)
+(* <<"", "bin", "sh">>, "sh" is <<"sh">>); elements are atomic strings.  A --with-shell value is the sequence of   *)
+(* its blank-separated words (<<>> = option not given), each word a path; $SHELL is [set, path].                   *)
+UnsetShell == [set |-> FALSE, path |-> <<>>]
+ShellVar(p) == [set |-> TRUE, path |-> p]
+EmptyPath == <<"">>                                     \* the empty string
+(* the program that will run the command: the first word of --with-shell if given, else $SHELL, else sh           *)
+(* CODE-DERIVED: an empty $SHELL counts as not set.                                                                 *)
+ExecProgram(env, ws) == IF ws # <<>> THEN ws[1]
+                        ELSE IF env.set /\ env.path # EmptyPath THEN env.path ELSE <<"sh">>
+ExecFlags(env, ws)   == IF ws # <<>> THEN Tail(ws) ELSE <<<<"-c">>>>
+ExecArgv(env, ws)    == <<ExecProgram(env, ws)>> \o ExecFlags(env, ws)      \* the command line is appended as one argument
+BaseName(p) == p[Len(p)]
+(* the quoting style is that of the program that will run the command - NOT that of $SHELL when --with-shell names *)
+(* another program: "fish" (by its last path element) reads the fish style, anything else gets the POSIX style.     *)
+QuoteStyle(env, ws) == IF BaseName(ExecProgram(env, ws)) = "fish" THEN "fish" ELSE "posix"
+QuoteBy(style, s) == IF style = "fish" THEN QuoteFish(s) ELSE Quote(s)
+ExecQuote(env, ws, s) == QuoteBy(QuoteStyle(env, ws), s)                    \* Executor.QuoteEntry
+(* the language the running program reads: the POSIX shells the property names, fish, or something this            *)
+(* specification has no model of (zsh, ruby -e, ...)                                                               *)
+PosixShellNames == {"sh", "bash"}
+Evaluator(env, ws) == LET b == BaseName(ExecProgram(env, ws))
+                      IN IF b \in PosixShellNames THEN "posix" ELSE IF b = "fish" THEN "fish" ELSE "other"
+(* wire / display form of paths and word lists *)
+JoinStr(seq, sep) == IF seq = <<>> THEN "" ELSE FoldLeft(LAMBDA acc, x : acc \o sep \o x, seq[1], Tail(seq))
+PathStr(p) == JoinStr(p, "/")
+WordsStr(ws) == JoinStr([i \in 1..Len(ws) |-> PathStr(ws[i])], " ")
 
 -------------------------------------------------------------------------------
 (* 2. The shell: a small-step model of POSIX word lexing (XCU 2.2 Quoting, 2.3 Token Recognition) restricted to   *)
@@ -258,8 +291,8 @@ ExpandPiece(pc, ti, st, q(_)) ==
     ELSE LET m == Meaning(pc.ph, ti, st) IN JoinWith([i \in 1..Len(m) |-> Written(pc.ph, m[i], q)], <<"SP">>)
 ExpandI(ti, st, q(_)) == Cat([i \in 1..Len(ti.ps) |-> ExpandPiece(ti.ps[i], ti, st, q)])
 Valid(t, st)      == ValidI(TInfo(t), st)
-Expand(t, st)     == ExpandI(TInfo(t), st, Quote)          \* $SHELL is a POSIX shell
-ExpandFish(t, st) == ExpandI(TInfo(t), st, QuoteFish)      \* $SHELL is fish
+Expand(t, st)     == ExpandI(TInfo(t), st, Quote)          \* the executor's style is POSIX (section 1b)
+ExpandFish(t, st) == ExpandI(TInfo(t), st, QuoteFish)      \* the executor's style is fish
 
 -------------------------------------------------------------------------------
 (* 6. The property.  Reading the command line the way the shell does, a placeholder that stands in unquoted        *)
@@ -294,6 +327,23 @@ QuoteInsideWord(s) == ShEval(<<"a">> \o Quote(s) \o <<"a">>) = Ok(<<<<"a">> \o s
 EscapeReadsBack(s) == ShEval(EscapeSingleQuote(s)) = Ok(<<s>>)
 FishReadsBack(s) == /\ FishEvalQuoted(QuoteFish(s)) = s
                     /\ FishClosesAt(QuoteFish(s), 2) = Len(QuoteFish(s))
+(* C12, executor level: the round trip is a statement about a PAIR (quoting style, program that evaluates).        *)
+(*   POSIX style read by sh / bash: the documented claim, validated against the real shells.                        *)
+(*   fish style read by fish: CODE-DERIVED model of fish's single quotes (no fish binary here), bound to the code.    *)
+(*   any style read by a program without a model here: no claim.                                                     *)
+(* The crossed pairs do NOT round-trip (CrossedStylesBreak: ' in fish style ends a POSIX word early, \\ in POSIX    *)
+(* style collapses in fish) - which is why the style has to follow the program and not $SHELL.                       *)
+ReadsBackBy(style, ev, s) ==
+    LET q == QuoteBy(style, s)
+    IN CASE ev = "posix" -> ShEval(q) = Ok(<<s>>)
+         [] ev = "fish"  -> FishEvalQuoted(q) = s /\ FishClosesAt(q, 2) = Len(q)
+         [] OTHER        -> TRUE
+ExecutorReadsBack(env, ws, s) == ReadsBackBy(QuoteStyle(env, ws), Evaluator(env, ws), s)
+CrossedStylesBreak == /\ ~ReadsBackBy("fish", "posix", <<"SQ">>)
+                      /\ ~ReadsBackBy("fish", "posix", <<"a", "BSL", "a">>)
+                      /\ ~ReadsBackBy("posix", "fish", <<"BSL", "BSL">>)
+(* expansion of a template by a given executor *)
+ExpandByI(ti, st, env, ws) == IF QuoteStyle(env, ws) = "fish" THEN ExpandI(ti, st, QuoteFish) ELSE ExpandI(ti, st, Quote)
 TmuxReadsBack(args) == ShEval(TmuxArgStr(args)) = Ok(args)
 TmuxExportReadsBack(v) == ShEval(TmuxExportWord(v)) = Ok(<<<<"a">> \o v>>)
 
